@@ -3,7 +3,8 @@
    Model: Model/Lexer.v (zygo/lexer.go), Model/Reader.v (zygo/parser.go; the coroutine is a
    continuation, [resume] = the next ParseTokens call), regexes generated from lexer.go. *)
 From Coq Require Import ZArith List Bool.
-From ZV Require Import Model.Regex Generated.LexTables Model.Lexer Model.Reader Proofs.LexerProofs Proofs.ReaderProofs.
+From ZV Require Import Model.Regex Generated.LexTables Model.Lexer Model.Reader Model.TokScan Proofs.LexerProofs Proofs.ReaderProofs
+  Proofs.RegexProofs Proofs.ReaderTotal Proofs.LexerWF Proofs.ReaderUnfinished.
 Import ListNotations.
 Open Scope Z_scope.
 
@@ -25,8 +26,8 @@ Theorem reset_is_init : forall s, reset s = init_lstate.
 Proof. exact LexerProofs.reset_is_init. Qed.
 Print Assumptions reset_is_init.
 
-Theorem history_independent : forall strict fuel p text,
-  parse_after strict fuel p text = parse_whole strict fuel text.
+Theorem history_independent : forall strict cfix fuel p text,
+  parse_after strict cfix fuel p text = parse_whole strict cfix fuel text.
 Proof. exact ReaderProofs.parse_after_any. Qed.
 Print Assumptions history_independent.
 
@@ -35,9 +36,9 @@ Print Assumptions history_independent.
    for the parser before the fix "inside a form the parser waits for the next token" (strict =
    false: four look-aheads see End at the end of a piece) only when the tokens contain no
    quote-sugar / backslash token and the continuation has no lexer error ---- *)
-Theorem resume_is_rerun : forall strict f acc t1 i1 t2 e2 i2,
+Theorem resume_is_rerun : forall strict cfix f acc t1 i1 t2 e2 i2,
   (strict = true \/ (nosugar (t1 ++ t2) /\ e2 = false)) ->
-  resume strict (ptop strict f acc (mkQ t1 false i1)) (mkQ t2 e2 i2) = ptop strict f acc (mkQ (t1 ++ t2) e2 i2).
+  resume strict cfix (ptop strict cfix f acc (mkQ t1 false i1)) (mkQ t2 e2 i2) = ptop strict cfix f acc (mkQ (t1 ++ t2) e2 i2).
 Proof. exact ReaderProofs.resume_is_rerun. Qed.
 Print Assumptions resume_is_rerun.
 
@@ -49,28 +50,28 @@ Print Assumptions resume_is_rerun.
    chunk_independent_before_fix* : the same statement about the parser before the fix holds only
    without quote sugar / backslash, and is false otherwise (the witnesses were replayed on the real
    code before the fix and are kept in the harness as edge texts). ---- *)
-Theorem chunk_independent : forall fuel pieces,
+Theorem chunk_independent : forall cfix fuel pieces,
   match mark_last pieces with [] => True | first :: rest => pieces_ok true first rest end ->
-  parse_pieces true fuel pieces = parse_whole true fuel (concat pieces).
-Proof. intros fuel pieces; exact (ReaderProofs.pieces_is_whole true fuel pieces). Qed.
+  parse_pieces true cfix fuel pieces = parse_whole true cfix fuel (concat pieces).
+Proof. intros cfix fuel pieces; exact (ReaderProofs.pieces_is_whole true cfix fuel pieces). Qed.
 Print Assumptions chunk_independent.
 
-Theorem chunk_independent_before_fix_partial : forall fuel pieces,
+Theorem chunk_independent_before_fix_partial : forall cfix fuel pieces,
   match mark_last pieces with [] => True | first :: rest => pieces_ok false first rest end ->
-  parse_pieces false fuel pieces = parse_whole false fuel (concat pieces).
-Proof. intros fuel pieces; exact (ReaderProofs.pieces_is_whole false fuel pieces). Qed.
+  parse_pieces false cfix fuel pieces = parse_whole false cfix fuel (concat pieces).
+Proof. intros cfix fuel pieces; exact (ReaderProofs.pieces_is_whole false cfix fuel pieces). Qed.
 Print Assumptions chunk_independent_before_fix_partial.
 
 (* the parser before the fix: "(%" then "a)" is ((quote <End>) a), whole it is ((quote a)) *)
 Theorem chunk_independent_before_fix_refuted : exists pieces,
-  observe (parse_pieces false 100 pieces) <> observe (parse_whole false 100 (concat pieces)).
+  observe (parse_pieces false false 100 pieces) <> observe (parse_whole false false 100 (concat pieces)).
 Proof. exists [[40; 37]; [97; 41]]. vm_compute. discriminate. Qed.
 Print Assumptions chunk_independent_before_fix_refuted.
 
 (* "(a " then "\ b)" is a hard error, whole it is the dotted pair *)
 Theorem chunk_independent_before_fix_refuted_dotted : exists pieces,
-  fst (observe (parse_pieces false 100 pieces)) = StErr /\
-  fst (observe (parse_whole false 100 (concat pieces))) = StDone.
+  fst (observe (parse_pieces false false 100 pieces)) = StErr /\
+  fst (observe (parse_whole false false 100 (concat pieces))) = StDone.
 Proof. exists [[40; 97; 32]; [92; 32; 98; 41]]. vm_compute. split; reflexivity. Qed.
 Print Assumptions chunk_independent_before_fix_refuted_dotted.
 
@@ -83,16 +84,49 @@ Print Assumptions chunk_independent_before_fix_refuted_dotted.
    that ends in the symbol - or + asks for more input (the -Inf look-ahead).  The direction <- is
    checked on every run against the implementation (no proof). ---- *)
 Theorem needmore_iff_unfinished_refuted_sign : exists text,
-  unfinished text = Some false /\ fst (observe (parse_whole true 100 text)) = StMore.
+  unfinished text = Some false /\ fst (observe (parse_whole true false 100 text)) = StMore.
 Proof. exists [40; 43; 32; 49; 32; 50; 41; 32; 45]. vm_compute. split; reflexivity. Qed.
 Print Assumptions needmore_iff_unfinished_refuted_sign.
 
 (* instances of <- : open string at top level, open raw string, open block comment, open bracket *)
 Example ex_unfinished_ask_more :
-  map (fun t => (unfinished t, fst (observe (parse_whole true 100 t))))
+  map (fun t => (unfinished t, fst (observe (parse_whole true false 100 t))))
       [[34; 97; 98; 99]; [96; 97]; [47; 42; 32; 97]; [40; 97]; [37; 32]; [47; 42; 42; 42; 47; 32; 97]]
   = [(Some true, StMore); (Some true, StMore); (Some true, StMore); (Some true, StMore); (Some true, StMore); (Some false, StDone)].
 Proof. vm_compute. reflexivity. Qed.
+
+(* ---- 5b. the two directions at the level of TOKENS, for all texts, against an independent token
+   scanner (Proofs/ReaderUnfinished.v: trun = bracket depth over all bracket kinds, inside block
+   comment / raw string, reader prefix % ^ ~ ~@ pending, last token is the symbol - / +;
+   tfinal = depth 0, not inside, nothing pending; sunf = depth > 0 or inside or pending or sign).
+   Side condition curly_plain: no '{' token is directly followed by a comment token (then the '{'
+   look-ahead skips nothing; with comments there the code has the defect curly-comment-drop, see
+   done_implies_finished_refuted_curly).  text_tokens text = the tokens of text ++ newline.
+   The link between this token scanner and the rune scanner [unfinished] is checked on every run
+   (field V of the model output), not proved. ---- *)
+Theorem done_implies_finished : forall cfix fuel text acc f st,
+  parse_whole true cfix fuel text = ODone acc f ->
+  curly_plain (text_tokens text) = true ->
+  trun st0 (text_tokens text) = Some st -> tfinal st = true.
+Proof. exact ReaderUnfinished.done_implies_finished. Qed.
+Print Assumptions done_implies_finished.
+
+(* the parser suspended wanting more than n tokens with toks still queued: the tokens consumed so far
+   leave the scanner unfinished or right after a sign symbol (the known finding) *)
+Theorem more_implies_unfinished : forall cfix fuel text acc n toks k st,
+  parse_whole true cfix fuel text = OSusp acc n toks k ->
+  curly_plain (text_tokens text) = true ->
+  trun st0 (text_tokens text) = Some st ->
+  exists sts, trun sts toks = Some st /\ sunf sts = true.
+Proof. exact ReaderUnfinished.more_implies_unfinished. Qed.
+Print Assumptions more_implies_unfinished.
+
+(* without the side condition (A) is false of the code as it is: `{ { // c<newline> }` *)
+Theorem done_implies_finished_refuted_curly : exists text st,
+  fst (observe (parse_whole true false 100 text)) = StDone /\
+  trun st0 (text_tokens text) = Some st /\ tfinal st = false.
+Proof. exists [123; 32; 123; 32; 47; 47; 32; 99; 10; 32; 125]. eexists. vm_compute. repeat split; reflexivity. Qed.
+Print Assumptions done_implies_finished_refuted_curly.
 
 (* ---- 6. the last token is never lost: after the final newline that WholeText supplies, a lexer
    in normal mode has nothing pending in its atom buffer (every atom became a token) ---- *)
@@ -101,22 +135,54 @@ Theorem last_token_kept : forall text s',
 Proof. exact LexerProofs.last_token_kept. Qed.
 Print Assumptions last_token_kept.
 
+(* ---- 7. read_total: the reader never reaches a panic site of parser.go.  The Go sites that would
+   panic are explicit outcomes of Model/Reader.v: OCrash CBlockComment / CBacktick (the two
+   `panic("internal error ...")`), CIndex (lexer.tokens[i] in the '{' look-ahead), CUintSlice
+   (tok.str[:len(tok.str)-3]).  They are unreachable on every token stream the lexer can produce
+   (lexer_tokens_wf: Comment* EndBlockComment after BeginBlockComment, BacktickString after
+   BeginBacktickString, Uint64 tokens of >= 3 runes — the last from a minimum-match-length theorem
+   about the generated regex), for every text, every parser state before ResetAddNewInput, both
+   settings of the two model flags, and every delivery in pieces that follows the protocol. ---- *)
+Theorem lexer_tokens_wf : forall text, wf_from WFree (l_tokens (lres_state (lex_all init_lstate text))).
+Proof. exact LexerWF.lexer_tokens_wf. Qed.
+Print Assumptions lexer_tokens_wf.
+
+Theorem reader_no_crash_on_wf_tokens : forall strict cfix f acc q, wfq q -> is_crash (ptop strict cfix f acc q) = false.
+Proof. exact ReaderTotal.ptop_nc. Qed.
+Print Assumptions reader_no_crash_on_wf_tokens.
+
+Theorem read_total : forall strict cfix fuel p text,
+  fst (observe (parse_after strict cfix fuel p text)) <> StCrash.
+Proof. intros. apply LexerWF.is_crash_status. apply LexerWF.whole_no_crash. Qed.
+Print Assumptions read_total.
+
+Theorem read_total_pieces : forall strict cfix fuel pieces,
+  match mark_last pieces with [] => True | first :: rest => pieces_ok strict first rest end ->
+  fst (observe (parse_pieces strict cfix fuel pieces)) <> StCrash.
+Proof. intros. apply LexerWF.is_crash_status. apply LexerWF.pieces_no_crash. assumption. Qed.
+Print Assumptions read_total_pieces.
+
+(* the crash outcomes are not vacuous: on a token list the lexer cannot produce the reader does panic *)
+Example ex_crash_site :
+  fst (observe (ptop true false 10 [] (mkQ [mkTok TBeginBlockComment []; mkTok TSymbol [97]] false false))) = StCrash.
+Proof. vm_compute. reflexivity. Qed.
+
 (* ---- non-vacuity ---- *)
 Example ex_tokens : map t_kind (fst (lex_text [40; 97; 32; 45; 49; 32; 49; 101; 45; 53; 41; 10]))
   = [TLParen; TSymbol; TDecimal; TFloat; TRParen].
 Proof. vm_compute. reflexivity. Qed.
 
 Example ex_three_cuts :
-  observe (parse_pieces true 100 [[40; 100]; [101; 102; 32; 34; 40]; [40; 34; 32]; [120; 41]])
-  = observe (parse_whole true 100 [40; 100; 101; 102; 32; 34; 40; 40; 34; 32; 120; 41]).
+  observe (parse_pieces true false 100 [[40; 100]; [101; 102; 32; 34; 40]; [40; 34; 32]; [120; 41]])
+  = observe (parse_whole true false 100 [40; 100; 101; 102; 32; 34; 40; 40; 34; 32; 120; 41]).
 Proof. vm_compute. reflexivity. Qed.
 
-Example ex_more_input : fst (observe (parse_whole true 100 [40; 97; 32; 91; 49])) = StMore.
+Example ex_more_input : fst (observe (parse_whole true false 100 [40; 97; 32; 91; 49])) = StMore.
 Proof. vm_compute. reflexivity. Qed.
 
 (* the repaired look-aheads: "(%" then "a)" *)
 Example ex_sugar_cut :
-  observe (parse_pieces true 100 [[40; 37]; [97; 41]]) = observe (parse_whole true 100 [40; 37; 97; 41]).
+  observe (parse_pieces true false 100 [[40; 37]; [97; 41]]) = observe (parse_whole true false 100 [40; 37; 97; 41]).
 Proof. vm_compute. reflexivity. Qed.
 
 Example ex_pieces_ok : pieces_ok false [40; 97] [[32; 98; 41; 10]].
